@@ -223,6 +223,9 @@ class Result(object):
 def scripted_prompt(answer_fn, trace):
     """answer_fn(input_obj, needed_by) -> text or None (refuse)"""
     def prompt(missing, needed_by):
+        if len(trace.prompts) >= 5000:
+            # deterministic guard: no return has 5000 inputs; a solver that keeps asking would never come back
+            raise LoopBudgetExceeded('the prompt was called more than 5000 times in one solve')
         text = answer_fn(missing, needed_by)
         nb = [f.name() for f in needed_by]
         if text is None:
